@@ -13,7 +13,10 @@ pub const DEFAULT_SEED: u64 = 20260929;
 
 thread_local! {
     static LAST_PANIC: RefCell<Option<String>> = const { RefCell::new(None) };
+    static GUARD_DEPTH: std::cell::Cell<u32> = const { std::cell::Cell::new(0) };
 }
+/// panics of the harness itself (outside any `guarded` section)
+pub static HARNESS_PANICS: AtomicU64 = AtomicU64::new(0);
 
 /// Install a silent panic hook that remembers `file:line: message` per thread.
 pub fn install_panic_hook() {
@@ -34,13 +37,22 @@ pub fn install_panic_hook() {
         } else {
             "?".into()
         };
+        if GUARD_DEPTH.with(|d| d.get()) == 0 {
+            // not inside a call into the crate under test: the harness itself is broken
+            if HARNESS_PANICS.fetch_add(1, Ordering::SeqCst) < 5 {
+                eprintln!("HARNESS-PANIC at {}: {}", loc, msg);
+            }
+        }
         LAST_PANIC.with(|p| *p.borrow_mut() = Some(format!("{} {}", loc, msg)));
     }));
 }
 
 /// Run `f`, turning a panic into Err("file:line message").
 pub fn guarded<T>(f: impl FnOnce() -> T) -> Result<T, String> {
-    match catch_unwind(AssertUnwindSafe(f)) {
+    GUARD_DEPTH.with(|d| d.set(d.get() + 1));
+    let r = catch_unwind(AssertUnwindSafe(f));
+    GUARD_DEPTH.with(|d| d.set(d.get() - 1));
+    match r {
         Ok(v) => Ok(v),
         Err(_) => Err(LAST_PANIC.with(|p| p.borrow_mut().take()).unwrap_or_else(|| "? ?".into())),
     }
@@ -159,7 +171,13 @@ where
                         break;
                     }
                     for run in base..(base + 64).min(n) {
-                        let r = body(run, &mut st);
+                        let r = match catch_unwind(AssertUnwindSafe(|| body(run, &mut st))) {
+                            Ok(r) => r,
+                            Err(_) => {
+                                st.inc("harness_panics");
+                                RunResult { violations: vec![], hist: 0 }
+                            }
+                        };
                         st.fold_hist(run, r.hist);
                         st.inc("runs");
                         if !r.violations.is_empty() {
@@ -421,10 +439,11 @@ pub struct Report {
 
 impl Report {
     pub fn exit_code(&self) -> i32 {
-        if self.harness_error.is_some() {
-            2
-        } else if self.violations > 0 {
+        // a confirmed violation (replayed in a fresh process) wins over a harness problem
+        if self.violations > 0 {
             1
+        } else if self.harness_error.is_some() {
+            2
         } else {
             0
         }
